@@ -58,9 +58,31 @@ def lazy_iterate_dicts(dict_of_iterables):
 
 
 def generate_combinations(generators_dict):
-    """Yield all combinations of generator values as keyword arguments"""
-    for combination in itertools.product(*generators_dict.values()):
-        yield dict(zip(generators_dict.keys(), combination))
+    """
+    Yield all combinations of generator values as keyword arguments, in the order of itertools.product, but pull
+    from the generators only as far as the combinations requested so far need (itertools.product would exhaust
+    every generator before yielding the first combination).
+    """
+    keys = list(generators_dict.keys())
+    iterators = [iter(g) for g in generators_dict.values()]
+    seen_values = [[] for _ in keys]
+
+    def combine(position, combination):
+        if position == len(keys):
+            yield dict(zip(keys, combination))
+            return
+        index = 0
+        while True:
+            if index == len(seen_values[position]):
+                try:
+                    seen_values[position].append(next(iterators[position]))
+                except StopIteration:
+                    return
+            value = seen_values[position][index]
+            index += 1
+            yield from combine(position + 1, combination + [value])
+
+    yield from combine(0, [])
 
 
 def filter_data(data, selected_indices):
